@@ -526,6 +526,14 @@ def gen_pp_stress(rng, n):
     add('diag-nonutf8-line-include', b'#include "h.h"\nchar *s = "\xff"; int x = ;\n', {'h.h': b'int h;\n'})
     add('diag-nonutf8-line-macro', b'#define L __LINE__\nint y = L;\nchar *s = "\xff"; int x = ;\n')
     add('diag-nonutf8-line-comment', b'#define S(x) #x\nchar *t = S(a);\n/* \xe2\x82 */ int x = ;\n')
+    add('linemarker-in-macro-args', b'#define A(x) x\nint y = A(\n#2)\n')
+    add('line-directive-in-macro-args', b'#define A(x) x\nint y = A(1\n#line 7\n);\n')
+    add('misc-label-address-constant', b'int f(void) { static int t = !&&a; a: return t; }\n')
+    add('misc-label-address-logand', b'int f(void) { static int t = &&a && &&b; a: b: return t; }\n')
+    add('misc-incomplete-array-element', b'int g[2][] = {{1}};\n')
+    add('misc-incomplete-array-static', b'int g[3][static] = {{}, [2]};\n')
+    add('misc-string-init-int-array', b'int s[] = "abc"; short t[] = "abc"; long u[] = "hello"; int v[2] = "abcdef";\n')
+    add('misc-wide-concat-diag', b'#include "a.h"\nint main() { 1 "b" L"c"; }\n', {'a.h': b'int a;\n'})
     add('fpic', b'extern int e; static int s; int g; int f(void); int main() { return e + s + g + f() + (long)&e + (long)f; }\n', opts=['-fpic'])
     add('fcommon', b'int g; int h[3]; _Thread_local int t;\n', opts=['-fcommon'])
     add('idirafter', b'#include <z.h>\nint q = Z;\n', {'inc/z.h': b'#define Z 1\n'}, opts=['-idirafter', '@DIR@/inc'])
